@@ -204,6 +204,9 @@ def falsify(ctx):
                 yield hit
         try:
             hit = check_replaces(registry, strings)
+        except stages.TooCostly:
+            ctx.count("skip:too-costly")
+            continue
         except Exception as e:  # noqa
             hit = None
         ctx.case(("replaces", kinds, dt))
